@@ -103,6 +103,8 @@ def run(seed_id, props):
         # the translators rewrote Generated/*.lean from the patched tree: regenerate them from the restored one
         sh(["python3", os.path.join(VERIF, "tools", "gen_lean_tables.py")])
         sh(["python3", os.path.join(VERIF, "tools", "gen_footprints.py")])
+        sh(["python3", os.path.join(VERIF, "tools", "gen_formulas.py")])
+        sh(["python3", os.path.join(VERIF, "tools", "gen_loops.py")])
     json.dump(meta, open(os.path.join(dst, "meta.json"), "w"), indent=1)
     return 0
 
